@@ -159,7 +159,7 @@ let () =
       let b = read_dump a.(3) (2 * n65) in
       let lo = int_of_string a.(4) and hi = int_of_string a.(5) in
       let t = table_of k n65 b in
-      let t0 = Unix.gettimeofday () in
+      let t0 = Sys.time () in
       let allok = ref true in
       for d = lo to hi - 1 do
         let ok = check_prefix cls t [z_of_int d] in
@@ -182,7 +182,7 @@ let () =
         end
       done;
       Printf.printf "CHECK %s first_digit=[%d,%d) placements=%d ok=%b secs=%.2f\n" cname lo hi
-        ((hi - lo) * (n65 / 65) * 2) !allok (Unix.gettimeofday () -. t0)
+        ((hi - lo) * (n65 / 65) * 2) !allok (Sys.time () -. t0)
   | "slice" ->
       (* slice CLASS DUMP SEED N : N random placements, children looked up in the dump *)
       let cname = a.(2) in
@@ -193,7 +193,7 @@ let () =
       Random.init (int_of_string a.(4));
       let n = int_of_string a.(5) in
       let t = table_of k n65 b in
-      let t0 = Unix.gettimeofday () in
+      let t0 = Sys.time () in
       let bad = ref 0 and legal = ref 0 and illegal = ref 0 and unrep = ref 0 and nchildren = ref 0 in
       let hist = Hashtbl.create 64 in
       for _ = 1 to n do
@@ -214,7 +214,7 @@ let () =
       done;
       let hs = Hashtbl.fold (fun key c acc -> Printf.sprintf "%s=%d" key c :: acc) hist [] in
       Printf.printf "SLICE %s n=%d legal=%d illegal=%d notaposition=%d children=%d bad=%d secs=%.2f labels: %s\n" cname n
-        !legal !illegal !unrep !nchildren !bad (Unix.gettimeofday () -. t0) (String.concat " " (List.sort compare hs))
+        !legal !illegal !unrep !nchildren !bad (Sys.time () -. t0) (String.concat " " (List.sort compare hs))
   | "ply" ->
       (* ply CLASS DUMP : stdin lines "PLY idx ply found score": the same position probed at
          another ply must give score_of_label ply (label at ply 0) *)
@@ -271,7 +271,7 @@ let () =
       let cls = parse_class cname in
       let k = List.length cls in
       let n65 = pow65 k in
-      let t0 = Unix.gettimeofday () in
+      let t0 = Sys.time () in
       let v = solve cls k n65 in
       let out = Bytes.create (4 * n65) in
       Array.iteri (fun idx c ->
@@ -282,7 +282,7 @@ let () =
         Bytes.set_int16_le out (2 * idx) r) v;
       let oc = open_out_bin a.(3) in
       output_bytes oc out; close_out oc;
-      Printf.printf "SOLVED %s secs=%.2f\n" cname (Unix.gettimeofday () -. t0)
+      Printf.printf "SOLVED %s secs=%.2f\n" cname (Sys.time () -. t0)
   | "explain" ->
       let cname = a.(2) in
       let cls = parse_class cname in
